@@ -3,6 +3,7 @@
 //! proposal (`ExternalGroup::propose` accepts any `Proposal`), and sends the types it is allowed to send.  Every member
 //! caches what it receives; the next commit must be built without panic, must silently drop the offender, and must be
 //! accepted by everybody, with the offender reported as unused.
+use crate::providers::SharedCryptoLog;
 use crate::util::{Opts, Rng, QA};
 use crate::world::*;
 use mls_rs::client_builder::MlsConfig;
@@ -389,6 +390,101 @@ fn lifetime_scenario(rng: &mut Rng, out: &mut Out, qa: &mut QA) {
     }
 }
 
+/// A by-reference resumption-PSK proposal for a past epoch that the committer no longer retains (its storage keeps fewer
+/// epochs than the proposer's): an unknown PSK that came in by reference — the commit must be built without it (C10), and a
+/// committer that still has the epoch commits it.
+fn stale_resumption_psk_scenario<C: MlsConfig>(rng: &mut Rng, mk: &dyn Fn(&Setup, &Handles, mls_rs::identity::SigningIdentity, mls_rs::crypto::SignatureSecretKey) -> mls_rs::Client<C>, out: &mut Out) {
+    let log: SharedCryptoLog = Default::default();
+    let mut w: World<C> = new_world(log, "/tmp/vharness-scratch-c10x");
+    for (name, ret) in [("A", 1usize), ("B", 5), ("C", 5)] {
+        let mut s = Setup::new(name);
+        s.retention = ret;
+        let h = handles(&s, &w.crypto_log, &w.scratch);
+        let (id, sk) = make_identity(&s.name, s.suite);
+        let client = mk(&s, &h, id, sk);
+        w.members.push(Member { identity: s.name.as_bytes().to_vec(), setup: s, h, client, group: None, ghosts: vec![], wrote: false });
+    }
+    let Ok(g) = w.members[0].client.create_group(Default::default(), Default::default(), None) else { return };
+    w.members[0].group = Some(g);
+    let kps: Vec<MlsMessage> = (1..3).map(|i| w.members[i].client.generate_key_package_message(Default::default(), Default::default(), None).unwrap()).collect();
+    let (_, o) = w.with_group(0, |g| {
+        let mut b = g.commit_builder();
+        for kp in kps {
+            b = b.add_member(kp)?;
+        }
+        b.build()
+    });
+    let Some(o) = o else { return };
+    w.with_group(0, |g| g.apply_pending_commit());
+    for i in 1..3 {
+        match o.welcome_messages.iter().find_map(|wm| w.members[i].client.join_group(None, wm, None).ok()) {
+            Some((g, _)) => w.members[i].group = Some(g),
+            None => return,
+        }
+    }
+    // several epochs, everybody writes after each: A (retention 1) forgets the old ones
+    let rounds = rng.range(3, 5);
+    for _ in 0..rounds {
+        let c = rng.below(3) as usize;
+        let (_, o) = w.with_group(c, |g| g.commit(vec![]));
+        let Some(o) = o else { return };
+        w.with_group(c, |g| g.apply_pending_commit());
+        for i in 0..3 {
+            if i != c {
+                let m = o.commit_message.clone();
+                w.with_group(i, |g| g.process_incoming_message(m));
+            }
+            w.with_group(i, |g| g.write_to_storage());
+        }
+    }
+    let now = w.group(0).current_epoch();
+    let old = 1 + rng.below(2); // joined at epoch 1; epochs 1 or 2 are beyond A's retention, within B's and C's
+    if old + 1 >= now {
+        return;
+    }
+    let gid = w.group(0).group_id().to_vec();
+    let a_has = w.group(0).verif_resumption_secret_available(&gid, old).unwrap_or(false);
+    let c_has = w.group(2).verif_resumption_secret_available(&gid, old).unwrap_or(false);
+    let (_, p) = w.with_group(1, |g| g.propose_resumption_psk(old, vec![]));
+    let Some(p) = p else { return };
+    for i in [0usize, 2] {
+        let m = p.clone();
+        let (r, _) = w.with_group(i, |g| g.process_incoming_message(m));
+        if !r.ok() {
+            out.fails.push(format!("stale-psk: member {i} rejected the resumption-PSK proposal message: {}", r.s()));
+            return;
+        }
+    }
+    out.cases += 1;
+    out.cover.insert(format!("stale-psk:committer-has={}:other-has={}", a_has as u8, c_has as u8));
+    // A (which lacks the epoch) commits: the proposal must be dropped, not make the commit fail
+    let mut ga = w.group(0).clone();
+    match ga.commit(vec![]) {
+        Ok(co) => {
+            let dropped = co.unused_proposals.iter().any(|p| matches!(p.proposal, mls_rs::group::proposal::Proposal::Psk(_)));
+            if !a_has && !dropped {
+                out.fails.push("stale-psk: a committer that does not retain the epoch committed the resumption PSK".into());
+            }
+        }
+        Err(e) => {
+            if !a_has {
+                out.fails.push(format!(
+                    "stale-psk: a by-reference resumption-PSK proposal for epoch {old} (now {now}) that the committer no longer retains makes its commit fail ({}) instead of being dropped",
+                    err_class(&e)
+                ));
+            }
+        }
+    }
+    // C (which still has it) commits it
+    if c_has {
+        let mut gc = w.group(2).clone();
+        if let Err(e) = gc.commit(vec![]) {
+            out.fails.push(format!("stale-psk: a committer that retains the epoch cannot commit the resumption PSK: {}", err_class(&e)));
+        }
+    }
+    let _ = std::fs::remove_dir_all("/tmp/vharness-scratch-c10x");
+}
+
 pub fn run(o: &Opts) -> i32 {
     crate::util::quiet_panics();
     let dir = o.str("out", "/verif/work/c10");
@@ -404,6 +500,7 @@ pub fn run(o: &Opts) -> i32 {
         gce_scenario(&mut r, &mut out);
         gce_scenario(&mut r, &mut out);
         lifetime_scenario(&mut r, &mut out, &mut qa);
+        stale_resumption_psk_scenario(&mut r, &mk, &mut out);
     }
     let rows = qa.finish();
     println!("rows {rows}");
